@@ -52,8 +52,10 @@ fn main() {
         "C05" => props::sim::c05(&opts),
         "C06" => props::c06::run(&opts),
         "C07" => props::sim::c07(&opts),
+        "C08" => props::c08::run(&opts),
         "C09" => props::sim::c09(&opts),
         "C10" => props::sim::c10(&opts),
+        "C11" => props::c11::run(&opts),
         "C16" => props::sim::c16(&opts),
         "C18" => props::sim::c18(&opts),
         other => {
